@@ -2,7 +2,7 @@
    Model: Model/Hop.v (hop_to_it, rescale, kinetic, advance_position/velocity);
    proofs: Proof/HopP.v; assembled loop body: Model/Traj.v, Proof/TrajP.v. *)
 From Coq Require Import Reals List Lra.
-From MV Require Import Ops RInst Vec Cplx Mat Hop HopP Propagate Traj TrajP.
+From MV Require Import Ops RInst Vec Cplx Mat Hop HopP Propagate Traj TrajP Models MD MDP.
 Import ListNotations.
 Open Scope R_scope.
 
@@ -116,3 +116,30 @@ Example C01_witness :
   let m := [1; 2; 4] in let v := [1; 1; 1] in let dir := [3; 0; 4] in
   Forall (fun mi => 0 < mi) m /\ length v = length m /\ length dir = length m.
 Proof. cbn. repeat split; try reflexivity. repeat constructor; lra. Qed.
+
+(* ---- the assembled loop of AdiabaticMD.simulate (Model/MD.v) on a HarmonicModel with one degree of freedom, ANY number
+   of passes: the shadow energy E0 + mu v^2/2 + k (x-c)^2 (1 - k dt^2/(4 mu))/2 is conserved exactly ... *)
+Theorem C01_md_harmonic_shadow_energy_conserved_any_number_of_steps :
+  forall E0 c k mu dt N, mu <> 0 -> forall x v t,
+  exists xN vN, md_harm_run ROps [c] [[k]] [mu] dt N ([x], [v], t) = ([xN], [vN], t + INR N * dt)
+                /\ hshadow E0 c k mu dt xN vN = hshadow E0 c k mu dt x v.
+Proof. exact hshadow_conserved. Qed.
+Print Assumptions C01_md_harmonic_shadow_energy_conserved_any_number_of_steps.
+
+(* ... hence, for a stable time step, the error of the total energy a snapshot logs (md_energy: energies[0] + kinetic
+   energy, as AdiabaticMD.snapshot computes it) is bounded by alpha/(1-alpha) times the initial energy above the minimum,
+   alpha = k dt^2 / (4 mu), for EVERY number of passes: no secular drift, and second order in dt *)
+Theorem C01_md_harmonic_energy_error_bounded_for_all_time :
+  forall E0 c k mu dt N x v t,
+  0 < mu -> 0 < k -> k * (dt * dt) < 4 * mu ->
+  let alpha := k * (dt * dt) / (4 * mu) in
+  let s0 := ([x], [v], t) in
+  let sN := md_harm_run ROps [c] [[k]] [mu] dt N s0 in
+  Rabs (hE E0 c k mu sN - hE E0 c k mu s0) <= alpha / (1 - alpha) * (hE E0 c k mu s0 - E0).
+Proof. exact harmonic_energy_error_bounded. Qed.
+Print Assumptions C01_md_harmonic_energy_error_bounded_for_all_time.
+
+(* non-vacuity: k = mu = 1, dt = 1/2 from x = 1 at rest: the error never exceeds 1/30, whatever N *)
+Example C01_md_witness : forall N,
+  Rabs (hE 0 0 1 1 (md_harm_run ROps [0] [[1]] [1] (/ 2) N ([1], [0], 0)) - hE 0 0 1 1 ([1], [0], 0)) <= / 15 * / 2.
+Proof. exact harmonic_bound_instance. Qed.
